@@ -128,7 +128,9 @@ def run(ctx):
     for meth, fam, kind, detail in res:
         if kind == "ok":
             d4, d8 = detail
-            if d8 > d4:
+            # a traversal that recurses over the nesting adds at least one frame per level: four more levels, four more
+            # frames.  A smaller shift (a helper reached only on the larger term) is not growth with the nesting.
+            if d8 - d4 >= DEPTHS[1] - DEPTHS[0]:
                 ctx.finding(rs, "FNode.%s|depth-grows|%s" % (meth, fam),
                             "FNode.%s: on the %s tower the deepest interpreted call stack is %d frames at nesting depth %d "
                             "and %d frames at nesting depth %d: the call stack grows with the nesting of the term, a "
